@@ -28,30 +28,33 @@ MDiv(e, s) ==
     IF e.ev \in NonTx \/ e.code = -1 THEN {}
     ELSE LET r == MResult(s, e.ev, e.args)
              a == e.args.acct
+             t == Carry(s, e.post)
          IN IF r.ok # e.ok THEN {Div(IF e.ok THEN "accepted-where-M-refuses" ELSE "refused-where-M-accepts", e)}
             ELSE IF ~e.ok THEN {}
-            ELSE (IF CEq(r.post.va[a].orig, e.post.va[a].orig) /\ CEq(Tracked(r.post.va[a]), Tracked(e.post.va[a]))
+            ELSE (IF CEq(Carry(s, r.post).va[a].orig, t.va[a].orig) /\ CEq(Tracked(Carry(s, r.post).va[a]), Tracked(t.va[a]))
                   THEN {} ELSE {Div("bookkeeping", e)})
-                 \cup (IF SameSchedules(r.post.va[a], e.post.va[a]) THEN {} ELSE {Div("schedule", e)})
+                 \cup (IF SameSchedules(Carry(s, r.post).va[a], t.va[a]) THEN {} ELSE {Div("schedule", e)})
 
 \* the statement's invariant read literally on every recorded state (diagnostic: it can be false
 \* without a debit, e.g. a merged grant after a slash re-bases the tracked delegation)
-LitDiv(e) ==
-    {Div("balance-below-lock", e) : a \in {x \in DOMAIN e.post.va : ~BalanceCoversLock(e.post.va[x], e.post.now)}}
+LitDiv(e, t) ==
+    {Div("balance-below-lock", e) : a \in {x \in DOMAIN t.va : ~BalanceCoversLock(t.va[x], t.now)}}
 
 TraceNext ==
     /\ l <= Len(Trace)
-    /\ LET e == Trace[l] IN
+    /\ LET e == Trace[l]
+           t == IF e.ev = "reset" THEN e.post ELSE Carry(st, e.post)   \* a converted account keeps its last schedule
+       IN
        /\ l' = l + 1
-       /\ st' = e.post
+       /\ st' = t
        /\ UNCHANGED <<hist, ini, slashed>>
        /\ IF e.ev = "reset"
           THEN /\ nscn' = nscn + 1
                /\ viol' = viol
-               /\ div' = div \cup (IF e.setupOK THEN {} ELSE {Div("setup-incomplete", e)}) \cup LitDiv(e)
+               /\ div' = div \cup (IF e.setupOK THEN {} ELSE {Div("setup-incomplete", e)}) \cup LitDiv(e, t)
           ELSE /\ nscn' = nscn
-               /\ viol' = viol \cup {Sig(k, StepClass(e, st, e.post), e) : k \in Broken(e, st, e.post)}
-               /\ div' = div \cup MDiv(e, st) \cup LitDiv(e)
+               /\ viol' = viol \cup {Sig(k, StepClass(e, st, t), e) : k \in Broken(e, st, t)}
+               /\ div' = div \cup MDiv(e, st) \cup LitDiv(e, t)
 
 TraceSpec == TraceInit /\ [][TraceNext]_tvars
 
